@@ -940,6 +940,10 @@ pub async fn server_stream(ctx: Ctx, name: String, req: http::Request<h2::RecvSt
         d.r_head = Some(head);
         d.r_head_count += 1;
     });
+    ctx.hist.with(|h| {
+        let st = h.step;
+        h.accept_step.insert(sid, st);
+    });
     ctx.hist.log(1, sid, || format!("accepted {} {}", req.method(), req.uri()));
     let body = req.into_body();
     let cancel = Cancel::default();
